@@ -14,7 +14,6 @@ import (
 var notApplicable = map[string]string{
 	"C16": "Matcher/postings algebra over runtime label data; no ordering, ownership or table clause whose breach breaks the behaviour (DESIGN §6).",
 	"C17": "Equivalence of an optimised matcher with regexp semantics is a language-equivalence question over runtime patterns (DESIGN §6).",
-	"C19": "Heap-merge de-duplication is value-level (timestamps, label order); the one structural clause (hint reset) is claimed under C12 (DESIGN §6).",
 	"C27": "Equality of range and instant evaluation is numerical / iterator-state behaviour (DESIGN §6).",
 	"C28": "Window edges are timestamp comparisons on runtime values (DESIGN §6).",
 	"C29": "Operator semantics are numerical and label-set valued; exhaustiveness of the operator tables is claimed under C33 (DESIGN §6).",
